@@ -64,7 +64,12 @@ fn owns_c14(op: &Op) -> bool {
     matches!(op, Op::SaveCursor | Op::RestoreCursor)
 }
 fn owns_c16(op: &Op) -> bool {
-    matches!(op, Op::Resize(..))
+    // resize() itself and the DECCOLM 132-column round trip (which resizes internally)
+    match op {
+        Op::Resize(..) => true,
+        Op::SetMode(l, p) | Op::ResetMode(l, p) => l.iter().any(|m| if *p { *m == 3 } else { *m == 96 }),
+        _ => false,
+    }
 }
 fn owns_c18(op: &Op) -> bool {
     matches!(op, Op::Tab | Op::SetTabStop | Op::ClearTabStop(_) | Op::Reset)
@@ -172,7 +177,7 @@ pub const STEP_PROPS: &[StepProp] = &[
     },
     StepProp {
         id: "C16",
-        focus: &[Focus::Resize, Focus::InsDel, Focus::Scroll, Focus::Erase],
+        focus: &[Focus::Resize, Focus::Resize, Focus::Resize, Focus::InsDel, Focus::Scroll, Focus::Erase],
         owns: owns_c16,
         rule: "one case = one seeded wiring-Q run with 1-4 Resizer steps at arbitrary event boundaries of marker-filled histories (margins, DECOM, pending-wrap cursor, wide characters on the cut column, hidden cells); targets 1..=max+2 in both dimensions, shrink-then-grow sequences; judged by step relation RESIZE (crop/extend, rows dropped from the top, added area blank, margins reset, cursor inside, all rows dirty, same size = identical snapshot)",
         quick_runs: 60_000,
